@@ -26,6 +26,82 @@ claim(
     "DESIGN.md 5/C04",
 )
 
+claim(
+    "C03",
+    "For the 3 transformer pipelines and 4 manifest writers (enumerated from the class hierarchy): def-use provenance shows the "
+    "diff's after-operand is the written payload and its before-operand is a read of the written path; an assumption-pruned "
+    "must/may event analysis over every exit shows 'ChangeSet returned <=> file written (when not dry)' and 'None => nothing written'; "
+    "the libcst ChangeSet is dominated by non-empty changes and diff; text-mode read-modify-write (CRLF loss) is reported.",
+    "Structural necessary conditions only; libcst round-trip and difflib hunk arithmetic are trusted; 4 known findings (CRLF manifests) are listed in known_findings.json.",
+    "def-use provenance + path-sensitive must/may event dataflow over the 7 read-diff-write sites",
+    "DESIGN.md 5/C03",
+)
+claim(
+    "C10",
+    "Every input-dependent call (read/decode/parse/transform) preceding the write in each pipeline's apply() is shown to lie under a broad "
+    "handler that records the failure, returns None and cannot write; add_failure and process_results are shown (must-events on all paths) "
+    "to record the file and all of its findings and to merge them for every file context; no path that recorded a failure returns a changeset; "
+    "no non-zero exit status depends on file failures.",
+    "Isolation of the exception and bookkeeping are decided; equality of other files' outcomes under faults is runtime behaviour and is not claimed.",
+    "enumeration of input-dependent call sites + try/handler dominance + must-event dataflow",
+    "DESIGN.md 5/C10",
+)
+claim(
+    "C11",
+    "Pool size provenance (--max-workers -> context -> executor), merge source (executor.map, input ordered, sorted inputs), worker isolation "
+    "(no context mutator / shared-state write reachable from the per-file worker: call-graph reachability over ~330 functions) and every "
+    "iteration over an unordered source (set, rglob, ...) with an order-sensitive consumer are decided for the whole program.",
+    "Thread-safety inside libcst/functools and sibling-file independence of arbitrary codemods are not claimed; 1 known finding (--max-workers ignored).",
+    "call-graph reachability + def-use roots + orderedness classification of every iteration",
+    "DESIGN.md 5/C11",
+)
+claim(
+    "C12",
+    "The operator each result-accumulation loop dispatches to is resolved through the ResultSet MRO including the external dict base "
+    "(dict.__ior__ = lossy update); merge bodies are checked for partial lookups over key unions; the readers' constructor fields and "
+    "Location start/end key families are compared; add_result files every location.",
+    "Equality of parsed findings with a reference extraction for arbitrary documents is not claimed.",
+    "operator dispatch resolution through the MRO + structural comparison of sibling readers",
+    "DESIGN.md 5/C12",
+)
+claim(
+    "C15",
+    "compile_results is decided path-by-path (exactly one Result per codemod, fields from the same codemod object/id); all 7 ChangeSet "
+    "constructions use the written path relative to the target directory and are dominated by non-empty changes; the statically "
+    "interpreted registry (101 codemods) supplies per-codemod obligations: tool metadata, rule ids = requested rules, summary, docs file, "
+    "non-empty default change description for every transformer that relies on it.",
+    "JSON-schema validity of pydantic's serialisation and line numbers lying inside the file are not claimed.",
+    "must/may event dataflow in compile_results + static registry interpretation + dominance facts at ChangeSet sites",
+    "DESIGN.md 5/C15",
+)
+claim(
+    "C17",
+    "match_codemods' returns are shown duplicate-free by construction (id-keyed dict), its pattern matchers escaped and full-match, the "
+    "include loop order-preserving over the user's list and the registry order, the selection threaded unchanged into apply_codemods and "
+    "compile_results, the CLI options mutually exclusive and de-duplicated, and the registry load loop ordered.",
+    "Regex semantics over arbitrary pattern lists and registries are not claimed.",
+    "construction-site analysis of the returned lists + matcher classification + def-use threading",
+    "DESIGN.md 5/C17",
+)
+claim(
+    "C19",
+    "Both plugin pipelines: line bookkeeping (AST equality of Change.lineNumber and the finding-lookup line), exactly one append per input line on "
+    "every loop path with only the line or its substitution appended, SAST substitution gated by line_matches_result, SAX handler CDATA flag "
+    "and Optional DTD ids, plus the shared failure-isolation, dry-run and diff/write agreement rules restricted to these classes.",
+    "XML infoset equality through expat/XMLGenerator and locator column arithmetic are not claimed.",
+    "must/may event dataflow over loop bodies + structural SAX-handler rules",
+    "DESIGN.md 5/C19",
+)
+claim(
+    "C20",
+    "Every return <int> of run(), every sys.exit/parser.exit reachable from main() and every call site of the two status functions are "
+    "enumerated; each non-zero status is tied to the handler / failed test that dominates it; no status of a status function is discarded; "
+    "no non-zero status is reachable after the report write without testing its result.",
+    "Which argument vectors argparse rejects, and exceptions escaping run(), are not claimed.",
+    "status-function call-site discipline + dominance facts at every return of run()",
+    "DESIGN.md 5/C20",
+)
+
 NA_REASONS: dict[str, str] = {}
 
 
